@@ -205,17 +205,19 @@ def run_case(scn, ctx):
             require(_missing_block(res.output) is None, "dr-none-missing", "create -dr reports missing files: %s\n%s" % (what, res.output[-400:]), res)
             doc = w.read_history("R")[-1][2]
             prev = {r["path"]: r["previous"] for r in doc["records"]}
+            child_kinds = {}
             if scn.get("child"):
                 c = scn["child"]
                 cdoc = w.read_history("R/" + c)[-1][2]
                 for r in cdoc["records"]:
                     prev[c + "/" + r["path"]] = (c + "/" + r["previous"]) if r["previous"] else None
+                    child_kinds[c + "/" + r["path"]] = r["kind"]
                 feats.add("nested_child")
             want = {dst: src for src, dst in rnd["renames"]}
             for dst, src in want.items():
                 require(dst in prev, "dr-record", "renamed file %r has no record (%s)" % (dst, what), res)
                 require(prev[dst] == src, "dr-previous", "record %r has previousPath %r, expected %r (%s)" % (dst, prev[dst], src, what), res)
-            kinds = {r["path"]: r["kind"] for r in doc["records"]}
+            kinds = dict({r["path"]: r["kind"] for r in doc["records"]}, **child_kinds)
             for p, pv in prev.items():
                 if p not in want and kinds.get(p, "file") == "file":
                     # (only file records: a folder that the moves left empty hashes like an empty file and may be taken
